@@ -105,6 +105,17 @@ PROPS = {
                      "byte sent and every log line for each password used (right or attempted). Non-trivial = credential file with >=2 users, >=1 successful "
                      "authenticate, >=1 element invisible to an authenticated peer or a denied set/call, and >=1 request by an unauthenticated peer (default); "
                      "adds from both local and remote origins (local variant); distinct = scenario hash."),
+    "C20": scen("c20", ["default"], level="fault_enumeration",
+                quick=dict(cases=200, size=40), thorough=dict(cases=6000, size=80, budget_s=3000),
+                rule="rapidcheck-generated histories of authenticate / passwd on 2-5 connections over a credential file with plain, admin, read-only and "
+                     "admin+read-only users (MD5/SHA-256/SHA-512 hashes made by the harness): own account, other accounts, unknown users, read-only targets, "
+                     "unauthenticated callers, re-authentication with the password in force, a wrong one and the original one; before password changes the "
+                     "generator injects an errno (EIO/ENOSPC/EDQUOT/ENOMEM) into the 1st/2nd ftruncate/write/open/rename/fsync or a short write of 0..900 bytes; "
+                     "at the end a fresh connection tries the password in force and the original one for every user. The simulated file system records the "
+                     "durable image of the credential file after every file-system call (crash point); every distinct image is loaded by a fresh daemon, "
+                     "which must start and honour exactly the old or exactly the new credential set. The authorisation model decides every response; a refused "
+                     "change must have no effect in memory and on disk. evaluations counts histories plus image probes. Non-trivial = at least one password "
+                     "change was carried out and at least one durable image was probed; distinct = scenario hash."),
     "C09": scen("c09", ["default"],
                 quick=dict(cases=450, size=60), thorough=dict(cases=12000, size=100, budget_s=3000),
                 rule="rapidcheck-generated base sessions (2-5 raw/WebSocket/local-socket connections; valid requests, batches, hostile ids, zero-length prefixes, "
